@@ -163,63 +163,82 @@ func runClientOps(cf ccfg, ops []cop) []copResult {
 		var err error
 		var ret string
 		t0 := time.Now()
-		p := safely(func() {
-			switch o.kind {
-			case "C":
-				f.FailOn[f.NumCalls()] = !o.dialOK
-				err = cl.Connect()
-			case "D":
-				if cs := f.All(); len(cs) > 0 && o.closeErr {
-					cs[len(cs)-1].OnClose = func() error { return errors.New("fake: close failed") }
-				}
-				err = cl.Disconnect()
-				err = nil // the result of the connection's Close is passed through; the model reports ok
-			case "R":
-				f.FailOn[f.NumCalls()] = !o.dialOK
-				err = cl.Reconnect()
-			case "H":
-				crand.Reader = &detRand{rand.New(rand.NewSource(o.saltSeed))}
-				mu.Lock()
-				tag = 1
-				mu.Unlock()
-				if cs := f.All(); len(cs) > 0 {
-					c := cs[len(cs)-1]
-					c.SetScript([]fakes.ReadStep{{Data: o.inp1}})
-					inp2 := o.inp2
-					pendingResp = func(c *fakes.Conn) {
-						if len(inp2) > 0 {
-							c.Script = append(c.Script, fakes.ReadStep{Data: inp2})
+		var p interface{}
+		finished := make(chan struct{})
+		go func() {
+			defer close(finished)
+			p = safely(func() {
+				switch o.kind {
+				case "C":
+					f.FailOn[f.NumCalls()] = !o.dialOK
+					err = cl.Connect()
+				case "D":
+					if cs := f.All(); len(cs) > 0 && o.closeErr {
+						cs[len(cs)-1].OnClose = func() error { return errors.New("fake: close failed") }
+					}
+					err = cl.Disconnect()
+					err = nil // the result of the connection's Close is passed through; the model reports ok
+				case "R":
+					f.FailOn[f.NumCalls()] = !o.dialOK
+					err = cl.Reconnect()
+				case "H":
+					crand.Reader = &detRand{rand.New(rand.NewSource(o.saltSeed))}
+					mu.Lock()
+					tag = 1
+					mu.Unlock()
+					if cs := f.All(); len(cs) > 0 {
+						c := cs[len(cs)-1]
+						c.SetScript([]fakes.ReadStep{{Data: o.inp1}})
+						inp2 := o.inp2
+						pendingResp = func(c *fakes.Conn) {
+							if len(inp2) > 0 {
+								c.Script = append(c.Script, fakes.ReadStep{Data: inp2})
+							}
 						}
 					}
-				}
-				err = cl.Handshake()
-			case "S":
-				o := o
-				pendingResp = func(c *fakes.Conn) {
-					steps := []fakes.ReadStep{}
-					if len(o.resp) > 0 {
-						steps = append(steps, fakes.ReadStep{Data: o.resp, Delay: o.delay})
+					err = cl.Handshake()
+				case "S":
+					o := o
+					pendingResp = func(c *fakes.Conn) {
+						steps := []fakes.ReadStep{}
+						if len(o.resp) > 0 {
+							steps = append(steps, fakes.ReadStep{Data: o.resp, Delay: o.delay})
+						}
+						if o.silent {
+							steps = append(steps, fakes.ReadStep{Block: true})
+						}
+						c.FragMax = o.frag
+						c.SetScriptInWrite(steps)
 					}
-					if o.silent {
-						steps = append(steps, fakes.ReadStep{Block: true})
+					if cs := f.All(); len(cs) > 0 {
+						cs[len(cs)-1].SetScript(nil)
 					}
-					c.FragMax = o.frag
-					c.SetScriptInWrite(steps)
+					err = cl.Send(o.msg)
+				case "W":
+					err = cl.SendRaw(o.raw)
+				case "T":
+					if cl.TransportPhase() {
+						ret = "true"
+					} else {
+						ret = "false"
+					}
 				}
-				if cs := f.All(); len(cs) > 0 {
-					cs[len(cs)-1].SetScript(nil)
-				}
-				err = cl.Send(o.msg)
-			case "W":
-				err = cl.SendRaw(o.raw)
-			case "T":
-				if cl.TransportPhase() {
-					ret = "true"
-				} else {
-					ret = "false"
-				}
+			})
+		}()
+		// watchdog: a call that is still running long after every timer it could be waiting
+		// for (client timeout, scripted delay) has expired does not return at all
+		limit := 10*time.Second + 2*cf.timeout + 2*o.delay
+		select {
+		case <-finished:
+		case <-time.After(limit):
+			mu.Lock()
+			res = append(res, copResult{ret: "hang", events: append([]string{}, cur...), dur: time.Since(t0)})
+			mu.Unlock()
+			for len(res) < len(ops) {
+				res = append(res, copResult{ret: "not-run"})
 			}
-		})
+			return res
+		}
 		switch {
 		case p != nil:
 			ret = "panic"
